@@ -386,6 +386,23 @@ def stage_projects(res, pr, tier, seed):
             spec_bad.append((pj, "the project gives %s when its directory was parsed before with other contents in the same process, and %s in a "
                                  "directory of its own: an included file is not read from the file system" % (sx, sy)))
             break
+    # ---- F0: a chain of included files whose names differ only in letter case (different files), each with its own INCLUDE;
+    # an included file longer than 1 MiB with a directive at its very end
+    case_chain = [("main.jst", J + "INCLUDE Types.jst\n"), ("Types.jst", "TYPE @a\n  {}\nINCLUDE types.jst\n"), ("types.jst", "TYPE @b\n  {}\nINCLUDE TYPES.jst\n"),
+                  ("TYPES.jst", "TYPE @c\n  {}\nINCLUDE more.jst\n"), ("more.jst", "GET /x\n  200 @a\n")]
+    case_whole = [("main.jst", J + "TYPE @a\n  {}\nTYPE @b\n  {}\nTYPE @c\n  {}\nGET /x\n  200 @a\n")]
+    pad = "".join("# padding line %06d ........................................................................\n" % i for i in range(13000))
+    big_chain = [("main.jst", J + "GET /x\n  200 @late\nINCLUDE big.jst\n"), ("big.jst", "TYPE @early\n  {}\n" + pad + "TYPE @late\n  {}\n")]
+    big_whole = [("main.jst", J + "GET /x\n  200 @late\nTYPE @early\n  {}\n" + pad + "TYPE @late\n  {}\n")]
+    for cut_, whole_, what_ in ((case_chain, case_whole, "files whose names differ only in letter case"), (big_chain, big_whole, "an included file longer than 1 MiB")):
+        oc_ = C.run_lines("harness", "fn", [P.run_line("out=json", cut_), P.run_line("out=json", whole_)])
+        res.count(2)
+        (s1_, d1_), (s2_, d2_) = P.parse(oc_[0]), P.parse(oc_[1])
+        if s2_ == "ok" and (s1_ != "ok" or d1_.get("json") != d2_.get("json")):
+            spec_bad.append((cut_ if len(str(cut_)) < 5000 else cut_[:1], "full pipeline: the project cut into %s gives %s, the one-file document is accepted%s" % (
+                what_, s1_ + (" " + C.unhx(d1_.get("msg", "-")).decode("latin1")[:80] if s1_ == "err" else ""), " with another catalog" if s1_ == "ok" else "")))
+        elif s2_ == "ok":
+            res.nontrivial(("case-or-size", what_))
     # ---- F: the main file opened under another spelling of its path (./main.jst, dir//main.jst): the same project
     spelled = [p for p in twins if sum(1 for ln in p[0][1].split("\n") if ln.strip().startswith("INCLUDE")) >= 2][:12]
     for sp in ("dot", "slashes", "dotdot"):
